@@ -4,10 +4,15 @@ import (
 	"bytes"
 	"errors"
 	"fmt"
+	"os"
+	"path/filepath"
+	"runtime"
 
 	"github.com/filecoin-project/go-bitfield"
 	"github.com/filecoin-project/go-f3/gpbft"
 	"github.com/filecoin-project/go-f3/pmsg"
+	"github.com/filecoin-project/go-f3/zz_verif/coop"
+	"github.com/filecoin-project/go-f3/zz_verif/kernel"
 )
 
 // validatorOracle implements the C05 and C13 checks on sampled deliveries and on forged
@@ -18,6 +23,7 @@ type validatorOracle struct {
 	w      *World
 	pmm    *pmsg.PartialMessageManager
 	nested *gpbft.GMessage // message that was validated nested inside the current delivery's validation
+	recent []*gpbft.GMessage // last few sampled messages (material for concurrent validation batches)
 }
 
 // beforeValidate may arm the verifier seam so that a second validation (of a corrupted twin)
@@ -248,6 +254,126 @@ func (vo *validatorOracle) judge(to *Member, m *gpbft.GMessage, cls string, verr
 	}
 }
 
+// concurrent validates a batch of messages (the delivered one, recent ones, forged variants of
+// them; some of them twice) from several tasks at once on the participant's long-lived validator.
+// validator.go and the caches are compiled with a yield point before every statement (tools/instr),
+// and the seeded cooperative scheduler decides after which statement another task continues: the
+// deterministic counterpart of many goroutines calling ValidateMessage. Every verdict must equal
+// the one a validator with an empty cache gives for the message on its own.
+func (vo *validatorOracle) concurrent(to *Member, msg *gpbft.GMessage) {
+	w, c := vo.w, vo.w.c
+	type item struct {
+		m       *gpbft.GMessage
+		what    string
+		partial bool
+		want    string
+		got     string
+		task    int
+	}
+	var items []*item
+	add := func(m *gpbft.GMessage, what string) {
+		items = append(items, &item{m: m, what: what})
+		if c.Chance(350) && vo.strip(m) != nil {
+			items = append(items, &item{m: m, what: what + ", partial path", partial: true})
+		}
+	}
+	add(msg, "delivered message")
+	for _, r := range vo.recent {
+		if r != msg && c.Chance(600) {
+			add(r, "recent message")
+		}
+	}
+	for i, n := 0, 1+c.Intn(3); i < n; i++ {
+		base := items[c.Intn(len(items))].m
+		if x, what := vo.forge(base); x != nil {
+			add(x, "forged variant ["+what+"]")
+		}
+	}
+	for i, n := 0, c.Intn(3); i < n; i++ { // the same message from two tasks
+		it := *items[c.Intn(len(items))]
+		items = append(items, &it)
+	}
+	if len(items) < 2 {
+		return
+	}
+	for _, it := range items {
+		if it.partial {
+			_, err := vo.fresh(to).PartiallyValidateMessage(w.ctx, vo.strip(it.m))
+			it.want = errClass(err)
+		} else {
+			_, err := vo.fresh(to).ValidateMessage(w.ctx, cloneOrSame(it.m))
+			it.want = errClass(err)
+		}
+	}
+	ntasks := 2 + c.Intn(3)
+	sched := coop.New(c.Intn, []int{5, 15, 40}[c.Intn(3)])
+	for t := 0; t < ntasks; t++ {
+		t := t
+		sched.Go(fmt.Sprintf("validator%d", t), func() {
+			for i, it := range items {
+				if i%ntasks != t {
+					continue
+				}
+				it.task = t
+				var err error
+				if it.partial {
+					_, err = to.part.PartiallyValidateMessage(w.ctx, vo.strip(it.m))
+				} else {
+					_, err = to.part.ValidateMessage(w.ctx, cloneOrSame(it.m))
+				}
+				it.got = errClass(err)
+				var pe *gpbft.PanicError
+				if errors.As(err, &pe) {
+					it.got = "panic: " + err.Error()
+				}
+			}
+		})
+	}
+	if os.Getenv("VERIF_COOP_DEBUG") != "" {
+		coop.DebugYield = func(task string) {
+			_, file, line, _ := runtime.Caller(2)
+			w.r.Tracef("yield %s %s:%d", task, filepath.Base(file), line)
+		}
+	}
+	err := sched.Run(4000)
+	w.r.Fault("concurrent_validation_batch")
+	w.r.Tracef("concurrent validation: %d items, %d tasks, %d yield points, %d switches, %d lock waits, err=%v", len(items), ntasks, sched.Yields, sched.Switches, sched.Blocks, err)
+	if sched.Switches > 0 {
+		w.r.Probe("c05_switch_inside_validation")
+	}
+	if sched.Blocks > 0 {
+		w.r.Probe("c05_cache_lock_contended")
+	}
+	if err != nil {
+		w.fail("C05", "concurrent_validation_stuck", "coop", "concurrent validations did not complete: %v", err)
+		return
+	}
+	for _, t := range sched.Tasks() {
+		if t.Panic != nil {
+			if kernel.IsInfra(t.Panic) {
+				panic(t.Panic)
+			}
+			w.fail("C05", "validator_panicked", "concurrent", "task %s panicked: %v", t.Name, t.Panic)
+			return
+		}
+	}
+	cur := to.part.Progress()
+	for _, it := range items {
+		sg := ""
+		if it.m.Justification != nil {
+			_ = it.m.Justification.Signers.ForEach(func(i uint64) error { sg += fmt.Sprint(i, ","); return nil })
+		}
+		w.r.Tracef("  item task=%d partial=%v %s: %s -> %s (alone: %s) signers=%s", it.task, it.partial, it.what, msgStr(it.m), it.got, it.want, sg)
+	}
+	for _, it := range items {
+		if it.got != it.want {
+			w.fail("C05", "verdict_depends_on_concurrency", it.got+"/"+it.want, "%s: participant %d (progress %d/%d/%s) validating %d messages from %d tasks says %q, a validator with an empty cache validating it alone says %q for %s",
+				it.what, to.ID, cur.ID, cur.Round, cur.Phase, len(items), ntasks, it.got, it.want, msgStr(it.m))
+			return
+		}
+	}
+}
+
 func cloneOrSame(m *gpbft.GMessage) *gpbft.GMessage {
 	if c := cloneMsg(m); c != nil {
 		return c
@@ -468,6 +594,14 @@ func (vo *validatorOracle) sample(to *Member, dl *delivery, msg *gpbft.GMessage,
 			}
 		}
 		vo.judge(to, msg, errClass(err), err, "delivered message")
+		if len(vo.recent) < 8 {
+			vo.recent = append(vo.recent, msg)
+		} else {
+			vo.recent[w.c.Intn(8)] = msg
+		}
+		if w.viol == nil && w.c.Chance(50) {
+			vo.concurrent(to, msg)
+		}
 		if w.viol != nil || !w.c.Chance(250) {
 			return
 		}
